@@ -17,7 +17,6 @@ import (
 	"os"
 	"os/exec"
 	"path/filepath"
-	"sort"
 	"strings"
 	"sync"
 	"sync/atomic"
@@ -71,12 +70,12 @@ func (l *recorder) record(isErr bool, args []interface{}) {
 	l.mu.Unlock()
 }
 
-func (l *recorder) Close() error                  { return nil }
-func (l *recorder) Check() error                  { return nil }
-func (l *recorder) SetLogSource(string) error     { return nil }
-func (l *recorder) SetLoggerSource(string) error  { return nil }
-func (l *recorder) Log(output ...interface{})     { l.record(false, output) }
-func (l *recorder) LogError(err ...interface{})   { l.record(true, err) }
+func (l *recorder) Close() error                 { return nil }
+func (l *recorder) Check() error                 { return nil }
+func (l *recorder) SetLogSource(string) error    { return nil }
+func (l *recorder) SetLoggerSource(string) error { return nil }
+func (l *recorder) Log(output ...interface{})    { l.record(false, output) }
+func (l *recorder) LogError(err ...interface{})  { l.record(true, err) }
 func (l *recorder) snapshot() []recMsg {
 	l.mu.Lock()
 	defer l.mu.Unlock()
@@ -794,7 +793,7 @@ func main() {
 	m := &monitor{r: r, exe: exe, dir: vrun.Scratch("c18"), verbose: os.Getenv("C18_VERBOSE") != ""}
 	defer os.RemoveAll(m.dir)
 
-	r.Rule("one case = one script played by the helper child through one library entry point. Fixed family: 33 seed-independent minimal scripts. " +
+	r.Rule("one case = one script played by the helper child through one library entry point. Fixed family: 33 seed-independent minimal scripts (run at every seed and tier). " +
 		"Seeded list (pure function of VERIF_SEED and the index, quick is a prefix of thorough): cases 0..255 sweep the exit statuses 0..255; later cases draw exit 0 (50%), 1..255 (28%) or death by SIGKILL/SIGTERM/SIGSEGV (22%); " +
 		"mode drawn from Execute, Execute with default messages, ExecuteWithEnvironment, New+Execute, NewWithEnvironment+Execute, Output, OutputWithEnvironment, Start+Stop, and cancelled runs (context cancel, Cancel(), context deadline; the child sleeps 120 s after its script). " +
 		"Per stream: volume 0..10^6 bytes; lines of length 1, 2..80, 81..4096, 4097..32768, 32769..65536, 65537..100000 of printable ASCII, UTF-8 with multi-byte runes or arbitrary bytes; LF or CRLF terminators, runs of empty lines, final line with or without LF; " +
@@ -854,7 +853,6 @@ func main() {
 		r.Obs("go_deadlock_reports", d)
 		r.Inconclusive("go-deadlock reported a potential deadlock inside the library (lock wait > 30 s)")
 	}
-	_ = sort.Strings
 
 	r.Require("exit_statuses", 256)
 	r.Require("signals", 3)
